@@ -1,6 +1,6 @@
-//! Generated breadth of the zoo: generic families `struct {a: A, b: B, t: Tail}` and
-//! `enum { N, P(A, B), Q { x: B, y: A, t: Tail } }` over sized leaf types A, B (all pairs of 8
-//! leaves with alignments 1..16, content-constrained ones included) and 8 unsized tails.  The
+//! Generated breadth of the zoo: generic families `struct {a: A, b: B, c: C, t: Tail}` and
+//! `enum { N, P(A, B, C), Q { x: B, y: A, z: C, t: Tail } }` over sized leaf types (64 triples
+//! covering all pairs of 8 leaves with alignments 1..16, content-constrained ones included) and 8 unsized tails.  The
 //! `#[flat]` macro is expanded once per family; the instantiation list and the dispatch arms
 //! are in `zoo_gen_list.rs` (written by `gen_zoo.py`).
 
@@ -96,26 +96,28 @@ impl ZooMsg for VecB8 {
 macro_rules! family {
     ($S:ident, $SInit:ident, $E:ident, $EInitN:ident, $EInitP:ident, $EInitQ:ident, $ERef:ident, $EMut:ident, $Tail:ty, $sname:expr, $ename:expr) => {
         #[flat(sized = false, default = true)]
-        pub struct $S<A: Leaf, B: Leaf> {
+        pub struct $S<A: Leaf, B: Leaf, C: Leaf> {
             pub a: A,
             pub b: B,
+            pub c: C,
             pub t: $Tail,
         }
-        impl<A: Leaf, B: Leaf> ZooMsg for $S<A, B> {
+        impl<A: Leaf, B: Leaf, C: Leaf> ZooMsg for $S<A, B, C> {
             const NAME: &'static str = $sname;
             fn name() -> String {
-                format!("{}<{},{}>", $sname, A::LNAME, B::LNAME)
+                format!("{}<{},{},{}>", $sname, A::LNAME, B::LNAME, C::LNAME)
             }
             fn gen(g: &mut Gen) -> Val {
                 let a = A::lgen(g);
                 let b = B::lgen(g);
-                Val::R(vec![a, b, <$Tail as ZooMsg>::gen(g)])
+                let c = C::lgen(g);
+                Val::R(vec![a, b, c, <$Tail as ZooMsg>::gen(g)])
             }
             fn emplace_val<'x>(bytes: &'x mut [u8], v: &Val) -> Result<&'x mut Self, Error> {
-                Self::new_in_place(bytes, $SInit { a: A::lmk(v.field(0)), b: B::lmk(v.field(1)), t: emp::<$Tail>(v.field(2)) })
+                Self::new_in_place(bytes, $SInit { a: A::lmk(v.field(0)), b: B::lmk(v.field(1)), c: C::lmk(v.field(2)), t: emp::<$Tail>(v.field(3)) })
             }
             fn read(&self) -> Val {
-                Val::R(vec![self.a.lrd(), self.b.lrd(), self.t.read()])
+                Val::R(vec![self.a.lrd(), self.b.lrd(), self.c.lrd(), self.t.read()])
             }
             fn tweak(&mut self, g: &mut Gen) {
                 if g.chance(1, 3) {
@@ -126,49 +128,51 @@ macro_rules! family {
         }
 
         #[flat(sized = false, default = true)]
-        pub enum $E<A: Leaf, B: Leaf> {
+        pub enum $E<A: Leaf, B: Leaf, C: Leaf> {
             #[default]
             N,
-            P(A, B),
-            Q { x: B, y: A, t: $Tail },
+            P(A, B, C),
+            Q { x: B, y: A, z: C, t: $Tail },
         }
-        impl<A: Leaf, B: Leaf> ZooMsg for $E<A, B> {
+        impl<A: Leaf, B: Leaf, C: Leaf> ZooMsg for $E<A, B, C> {
             const NAME: &'static str = $ename;
             fn name() -> String {
-                format!("{}<{},{}>", $ename, A::LNAME, B::LNAME)
+                format!("{}<{},{},{}>", $ename, A::LNAME, B::LNAME, C::LNAME)
             }
             fn gen(g: &mut Gen) -> Val {
                 match g.weighted(&[1, 3, 4]) {
                     0 => Val::V(0, vec![]),
                     1 => {
                         let a = A::lgen(g);
-                        Val::V(1, vec![a, B::lgen(g)])
+                        let b = B::lgen(g);
+                        Val::V(1, vec![a, b, C::lgen(g)])
                     }
                     _ => {
                         let x = B::lgen(g);
                         let y = A::lgen(g);
-                        Val::V(2, vec![x, y, <$Tail as ZooMsg>::gen(g)])
+                        let z = C::lgen(g);
+                        Val::V(2, vec![x, y, z, <$Tail as ZooMsg>::gen(g)])
                     }
                 }
             }
             fn emplace_val<'x>(bytes: &'x mut [u8], v: &Val) -> Result<&'x mut Self, Error> {
                 match v.tag() {
                     0 => Self::new_in_place(bytes, $EInitN),
-                    1 => Self::new_in_place(bytes, $EInitP(A::lmk(v.field(0)), B::lmk(v.field(1)))),
-                    _ => Self::new_in_place(bytes, $EInitQ { x: B::lmk(v.field(0)), y: A::lmk(v.field(1)), t: emp::<$Tail>(v.field(2)) }),
+                    1 => Self::new_in_place(bytes, $EInitP(A::lmk(v.field(0)), B::lmk(v.field(1)), C::lmk(v.field(2)))),
+                    _ => Self::new_in_place(bytes, $EInitQ { x: B::lmk(v.field(0)), y: A::lmk(v.field(1)), z: C::lmk(v.field(2)), t: emp::<$Tail>(v.field(3)) }),
                 }
             }
             fn read(&self) -> Val {
                 match self.as_ref() {
                     $ERef::N => Val::V(0, vec![]),
-                    $ERef::P(a, b) => Val::V(1, vec![a.lrd(), b.lrd()]),
-                    $ERef::Q { x, y, t } => Val::V(2, vec![x.lrd(), y.lrd(), t.read()]),
+                    $ERef::P(a, b, c) => Val::V(1, vec![a.lrd(), b.lrd(), c.lrd()]),
+                    $ERef::Q { x, y, z, t } => Val::V(2, vec![x.lrd(), y.lrd(), z.lrd(), t.read()]),
                 }
             }
             fn tweak(&mut self, g: &mut Gen) {
                 match self.as_mut() {
                     $EMut::N => {}
-                    $EMut::P(a, _) => *a = A::lmk(&A::lgen(g)),
+                    $EMut::P(a, _, _) => *a = A::lmk(&A::lgen(g)),
                     $EMut::Q { x, t, .. } => {
                         if g.chance(1, 3) {
                             *x = B::lmk(&B::lgen(g));
@@ -181,11 +185,11 @@ macro_rules! family {
     };
 }
 
-family!(S0, S0Init, E0, E0InitN, E0InitP, E0InitQ, E0Ref, E0Mut, VecU8, "S{A,B,FlatVec<u8,u32>}", "E{N|P(A,B)|Q{B,A,FlatVec<u8,u32>}}");
-family!(S1, S1Init, E1, E1InitN, E1InitP, E1InitQ, E1Ref, E1Mut, VecB8, "S{A,B,FlatVec<u8,u8>}", "E{N|P(A,B)|Q{B,A,FlatVec<u8,u8>}}");
-family!(S2, S2Init, E2, E2InitN, E2InitP, E2InitQ, E2Ref, E2Mut, Str8, "S{A,B,FlatString<u8>}", "E{N|P(A,B)|Q{B,A,FlatString<u8>}}");
-family!(S3, S3Init, E3, E3InitN, E3InitP, E3InitQ, E3Ref, E3Mut, VecI32, "S{A,B,FlatVec<i32,u16>}", "E{N|P(A,B)|Q{B,A,FlatVec<i32,u16>}}");
-family!(S4, S4Init, E4, E4InitN, E4InitP, E4InitQ, E4Ref, E4Mut, BoolVec, "S{A,B,FlatVec<Bool,u8>}", "E{N|P(A,B)|Q{B,A,FlatVec<Bool,u8>}}");
-family!(S5, S5Init, E5, E5InitN, E5InitP, E5InitQ, E5Ref, E5Mut, VecU16, "S{A,B,FlatVec<u16,u16>}", "E{N|P(A,B)|Q{B,A,FlatVec<u16,u16>}}");
-family!(S6, S6Init, E6, E6InitN, E6InitP, E6InitQ, E6Ref, E6Mut, FlexB, "S{A,B,FlexVec<u8,u8>}", "E{N|P(A,B)|Q{B,A,FlexVec<u8,u8>}}");
-family!(S7, S7Init, E7, E7InitN, E7InitP, E7InitQ, E7Ref, E7Mut, VecA3, "S{A,B,FlatVec<[u8;3],u16>}", "E{N|P(A,B)|Q{B,A,FlatVec<[u8;3],u16>}}");
+family!(S0, S0Init, E0, E0InitN, E0InitP, E0InitQ, E0Ref, E0Mut, VecU8, "S{A,B,C,FlatVec<u8,u32>}", "E{N|P(A,B,C)|Q{B,A,C,FlatVec<u8,u32>}}");
+family!(S1, S1Init, E1, E1InitN, E1InitP, E1InitQ, E1Ref, E1Mut, VecB8, "S{A,B,C,FlatVec<u8,u8>}", "E{N|P(A,B,C)|Q{B,A,C,FlatVec<u8,u8>}}");
+family!(S2, S2Init, E2, E2InitN, E2InitP, E2InitQ, E2Ref, E2Mut, Str8, "S{A,B,C,FlatString<u8>}", "E{N|P(A,B,C)|Q{B,A,C,FlatString<u8>}}");
+family!(S3, S3Init, E3, E3InitN, E3InitP, E3InitQ, E3Ref, E3Mut, VecI32, "S{A,B,C,FlatVec<i32,u16>}", "E{N|P(A,B,C)|Q{B,A,C,FlatVec<i32,u16>}}");
+family!(S4, S4Init, E4, E4InitN, E4InitP, E4InitQ, E4Ref, E4Mut, BoolVec, "S{A,B,C,FlatVec<Bool,u8>}", "E{N|P(A,B,C)|Q{B,A,C,FlatVec<Bool,u8>}}");
+family!(S5, S5Init, E5, E5InitN, E5InitP, E5InitQ, E5Ref, E5Mut, VecU16, "S{A,B,C,FlatVec<u16,u16>}", "E{N|P(A,B,C)|Q{B,A,C,FlatVec<u16,u16>}}");
+family!(S6, S6Init, E6, E6InitN, E6InitP, E6InitQ, E6Ref, E6Mut, FlexB, "S{A,B,C,FlexVec<u8,u8>}", "E{N|P(A,B,C)|Q{B,A,C,FlexVec<u8,u8>}}");
+family!(S7, S7Init, E7, E7InitN, E7InitP, E7InitQ, E7Ref, E7Mut, VecA3, "S{A,B,C,FlatVec<[u8;3],u16>}", "E{N|P(A,B,C)|Q{B,A,C,FlatVec<[u8;3],u16>}}");
